@@ -16,14 +16,18 @@ structure SameA (a : Nat) (v v' : View) : Prop where
   rg : ∀ k, v'.RG a k ↔ v.RG a k
   rw : ∀ s, v'.RW a s ↔ v.RW a s
   d : v.D a → v'.D a
+  sg : ∀ k, v.SG a k → v'.SG a k
+  sw : ∀ s, v.SW a s → v'.SW a s
 
 theorem sameA_of_vtrans_empty (t : VTrans v v' {}) : SameA a v v' :=
   ⟨fun k => by rw [t.m]; simp, fun k => by rw [t.l]; simp, fun s => by rw [t.w]; simp,
-   fun k => by rw [t.rm]; simp, fun k => by rw [t.rg]; simp, fun s => by rw [t.rw]; simp, t.d a⟩
+   fun k => by rw [t.rm]; simp, fun k => by rw [t.rg]; simp, fun s => by rw [t.rw]; simp, t.d a, t.sg a, t.sw a⟩
 
 theorem vinv_mark (s : SameA a v v') (hd : v'.D a) (h : VInv a v .live) : VInv a v' .marked := by
-  refine ⟨fun k hk => (s.m k).mpr (h.rM k ((s.rm k).mp hk)), fun k hk => (s.l k).mpr (h.rL k ((s.rg k).mp hk)),
-    fun x hx => (s.w x).mpr (h.rW x ((s.rw x).mp hx)), fun _ => hd, ?_, ?_, ?_, (fun hp => by cases hp),
+  refine ⟨fun k hk => (s.m k).mpr (h.rM k ((s.rm k).mp hk)),
+    fun k hk => (h.rL k ((s.rg k).mp hk)).elim (fun z => Or.inl ((s.l k).mpr z)) (fun z => Or.inr (s.sg k z)),
+    fun x hx => (h.rW x ((s.rw x).mp hx)).elim (fun z => Or.inl ((s.w x).mpr z)) (fun z => Or.inr (s.sw x z)),
+    fun _ => hd, ?_, ?_, ?_, (fun hp => by cases hp),
     (fun hp => by cases hp), (fun hp => by cases hp)⟩
   · intro k hk; exact (s.rm k).mpr (h.fM k ((s.m k).mp hk))
   · intro k hk; exact (s.rg k).mpr (h.fL k ((s.l k).mp hk))
